@@ -43,13 +43,18 @@ def schedule_leg(tier):
         if ln.startswith("R "):
             p = ln.split()
             refs[int(p[1])] = p[2]
+    out = {"violations": [], "errors": [], "summary": {}}
+    if r.returncode != 0 and ("Sanitizer" in r.stderr or "runtime error" in r.stderr):
+        rep = r.stderr.split("\n")
+        out["violations"].append({"sig": vp.crash_signature("exit", rep) + "@serial-build", "rec": None,
+                                  "text": "the OpenMP-free build crashes on an input of the schedule leg: " + " / ".join(l.strip() for l in rep[:8])[:600]})
+        return out
     exe = build.build_harness("C02", "vgomp-O2", ["harness/C02_sched.c"])
     if tier == "quick":
         jobs = [("vgomp-O2", k, 2, 0, 1, 0, 0, 1, 1) for k in (0, 2, 3, 4, 6)] + [("vgomp-O2", 11, 2, 0, 0, 1, 0, 1, 1)]
     else:
         jobs = [("vgomp-O2", k, N, 0, 2, 0, 0, 3, 4) for k in (0, 1, 2, 3, 4, 5, 6) for N in (2, 3)] + \
                [("vgomp-O2", k, 2, 0, 1, 1, 0, 1, 8) for k in (11, 12)]
-    out = {"violations": [], "errors": [], "summary": {}}
     from concurrent.futures import ThreadPoolExecutor
     work = [(j, s) for j in jobs for s in range(j[8])]
 
